@@ -18,7 +18,9 @@ EXPLANATION = (
     'shipped data: every category string in targets.{en,en_rebank,ja}, cat_dict.en, seen_rules.*, unary_rules.* and the '
     'inline tables of config_rebank is accepted by an independent category grammar; target lists have no duplicates; '
     'every category of cat_dict.en occurs in targets.en (compared on the parsed value).  numpy fancy-indexing semantics '
-    'are trusted; config loading through allennlp Params is not analysed beyond the keys it pops.')
+    'are trusted; config loading through allennlp Params is not analysed beyond the keys it pops.'
+    ' Category strings of the data files must denote the same category however they are spaced: the tokenise rule of C05 is a clause here.'
+)
 TRUSTED = ['CPython ast', 'numpy boolean-mask assignment semantics', 'independent jsonnet-subset and category readers (sa/datafiles.py)']
 
 REL = 'depccg/parsing.py'
